@@ -128,7 +128,7 @@ class DynamicStructuredGrammaticalEvolutionRepresentation(
         return random_tree(genotype.random, self.grammar, decider)
 
     def mutate(self, random: RandomSource, genotype: Genotype, **kwargs) -> Genotype:
-        dna = deepcopy(genotype.dna)
+        dna = {k: list(v) for k, v in genotype.dna.items()}
         alternatives = list(genotype.dna.keys())
         if alternatives:
             rkey = random.choice(alternatives)
